@@ -68,6 +68,64 @@ func runPreallocGuard(c *Ctx) {
 			}
 		}
 	}
+	// exclusive backing store: what is stored into a collection field that the parser also appends to is a fresh slice,
+	// an append to the field itself, nil, or a re-slice of the field itself -- never a window into a buffer shared with
+	// other entities without a capacity limit (an append would then run into the neighbour's elements)
+	for _, fn := range staticParseFns(c) {
+		appended := map[string]bool{}
+		for _, b := range fn.Blocks {
+			for _, in := range b.Instrs {
+				if st, ok := in.(*ssa.Store); ok && isAppendOf(st.Val, st.Addr) {
+					appended[storeCell(st.Addr)] = true
+				}
+			}
+		}
+		for _, b := range fn.Blocks {
+			for _, in := range b.Instrs {
+				st, ok := in.(*ssa.Store)
+				if !ok || !appended[storeCell(st.Addr)] {
+					continue
+				}
+				if _, isField := st.Addr.(*ssa.FieldAddr); !isField {
+					continue
+				}
+				var shared func(v ssa.Value, d int) string
+				shared = func(v ssa.Value, d int) string {
+					if d > 8 {
+						return ""
+					}
+					switch x := v.(type) {
+					case *ssa.Slice:
+						if x.Max != nil {
+							return "" // full slice expression: capacity limited
+						}
+						if ld, ok := x.X.(*ssa.UnOp); ok && canon(ld.X) == canon(st.Addr) {
+							return "" // a re-slice of the field itself
+						}
+						if isLocalArrayAlloc(x.X) != nil {
+							return "" // a literal
+						}
+						return "a window " + descr(x) + " into another slice, without a capacity limit"
+					case *ssa.Phi:
+						for _, e := range x.Edges {
+							if w := shared(e, d+1); w != "" {
+								return w
+							}
+						}
+					case *ssa.Call:
+						if isBuiltin(x, "append") {
+							return shared(x.Call.Args[0], d+1)
+						}
+					}
+					return ""
+				}
+				if w := shared(st.Val, 0); w != "" {
+					n++
+					c.Violated("PREALLOC", shortName(fn), "backing store of "+strings.TrimPrefix(storeCell(st.Addr), "gtfs."), p.ipos(st), "a collection the parser appends to is given "+w+": appending more elements than were reserved overwrites the elements of whichever entity owns the next part of that buffer")
+				}
+			}
+		}
+	}
 	c.Stats["PREALLOC resets in row loops"] = n
 	if n == 0 {
 		c.Proved("PREALLOC", "gtfs", "no collection is reset inside a row loop", "-", "no store of a fresh slice into an appended collection")
@@ -799,6 +857,77 @@ func runWarningRules(c *Ctx) {
 		}
 	}
 	c.Check(incField != "" && len(writes[incField]) == 1, "A9", "(*csv.File).NextRow", "row number counts accepted records from 1", "-", "the row counter is incremented by exactly one, only on the path that hands out a row", fmt.Sprintf("the row counter is written %d time(s) (%v) or not as counter+1 on the success path: warnings no longer carry the 1-based record number", len(writes[incField]), writes))
+	// every record the reader hands over without error is counted: no path from a successful Read to the next Read (a
+	// skip loop) or to a return avoids the increment
+	if nextRow != nil && incField != "" {
+		var probs []string
+		nReads := 0
+		for _, rb := range nextRow.Blocks {
+			for _, in := range rb.Instrs {
+				read, ok := in.(*ssa.Call)
+				if !ok || !strings.HasSuffix(calleeName(read), "encoding/csv.Reader).Read") {
+					continue
+				}
+				nReads++
+				var walk func(b *ssa.BasicBlock, from int, counted bool, errNil int, on map[*ssa.BasicBlock]bool, depth int)
+				walk = func(b *ssa.BasicBlock, from int, counted bool, errNil int, on map[*ssa.BasicBlock]bool, depth int) {
+					if depth > 64 {
+						return
+					}
+					for _, in2 := range b.Instrs[from:] {
+						if in2 == ssa.Instruction(read) && from == 0 {
+							if !counted && errNil != -1 {
+								probs = append(probs, p.ipos(read)+": a record can be read and discarded without being counted (the next Read is reached before the row counter is incremented)")
+							}
+							return
+						}
+						if st, isSt := in2.(*ssa.Store); isSt {
+							if fa, isFA := st.Addr.(*ssa.FieldAddr); isFA && typeName(fa.X.Type()) == "csv.File" && fieldName(fa.X.Type(), fa.Field) == incField {
+								counted = true
+							}
+						}
+						if ret, isRet := in2.(*ssa.Return); isRet {
+							if bv, isC := constBool(ret.Results[0]); isC && bv && !counted {
+								probs = append(probs, p.ipos(ret)+": a row is handed out without being counted")
+							}
+							return
+						}
+					}
+					if on[b] {
+						return
+					}
+					on[b] = true
+					defer delete(on, b)
+					iff, isIf := b.Instrs[len(b.Instrs)-1].(*ssa.If)
+					for si, s2 := range b.Succs {
+						e2 := errNil
+						if isIf {
+							if bo, isBo := iff.Cond.(*ssa.BinOp); isBo && isNilConst(bo.Y) {
+								if ex, isEx := bo.X.(*ssa.Extract); isEx && ex.Tuple == ssa.Value(read) && ex.Index == 1 {
+									isErr := (bo.Op == token.NEQ) == (si == 0)
+									if isErr {
+										e2 = -1
+									} else {
+										e2 = 1
+									}
+								}
+							}
+						}
+						walk(s2, 0, counted, e2, on, depth+1)
+					}
+				}
+				// start right after the Read
+				idx := 0
+				for k, in2 := range rb.Instrs {
+					if in2 == ssa.Instruction(read) {
+						idx = k + 1
+					}
+				}
+				walk(rb, idx, false, 0, map[*ssa.BasicBlock]bool{}, 0)
+			}
+		}
+		c.Check(len(probs) == 0 && nReads > 0, "A9", "(*csv.File).NextRow", "every record read is counted", "-", "no path from a successful Read reaches the next Read or `return true` without incrementing the row counter", strings.Join(dedup(probs), "; "))
+	}
 	c.Check(incField != "" && accField["RowNumber"] == incField, "A9", "(*csv.File).RowNumber", "accessor returns the row counter", "-", "returns the field NextRow increments", "RowNumber() does not return the counter that NextRow increments")
 	if f := c.anchor("csv:(*File).Name"); f != nil {
 		ok := false
